@@ -101,6 +101,14 @@ any_int!(any_u32, u32, 4);
 any_int!(any_u64, u64, 8);
 any_int!(any_usize, usize, 8);
 
+/// A u32 that the native search fallback enumerates over 0..4 (for harnesses whose verdict depends only
+/// on order/adjacency of such values); any u32 under the solver and in script replay.
+pub fn any_u32_searchable() -> u32 {
+    #[cfg(not(kani))]
+    if script::search_active() { return script::search_digit(4) as u32; }
+    any_u32()
+}
+
 pub fn any_bool() -> bool {
     #[cfg(not(kani))]
     if script::search_active() { return script::search_digit(2) == 1; }
